@@ -172,7 +172,7 @@ _c.ensures("implies(self.caught_errors is None, len(appended('self.caught_errors
 # NameCheckVisitor's override of is_enabled: the options look-up chain
 # is_enabled -> Options.is_error_code_enabled -> Options._get_value_for_no_default -> ConfigOption.get_value_from_instances (all under contract, c18_options.py)
 
-@contract("pyanalyze.name_check_visitor.NameCheckVisitor.is_enabled", props=P)
+@contract("pyanalyze.name_check_visitor.NameCheckVisitor.is_enabled", props=P + ["C18"])
 def _(c):
     c.param("error_code", "val")
     c.returns("val")
